@@ -264,7 +264,7 @@ func (e *Engine) RunSelection(s Selection) (*core.Result, error) {
 			if l.Name == name {
 				found = true
 				res.Obls = append(res.Obls, &core.Obl{Name: "lemma/" + name, Kind: "lemma", Tier: core.Proved, Detail: "lemma " + name + " (pure SMT over the specification vocabulary)",
-					Query: prelude + l.Script + "\n"})
+					Query: prelude + e.substStrLits(l.Script) + "\n"})
 			}
 		}
 		if !found {
